@@ -46,6 +46,7 @@ func (b *bufferPool) Get() *bytes.Buffer {
 }
 
 func (b *bufferPool) Put(buffer *bytes.Buffer) {
+	verifPoison(buffer)
 	if buffer.Cap() > maxRecycleBufferSize {
 		return
 	}
